@@ -143,7 +143,6 @@ func ruleR46(c *Ctx) {
 	}
 }
 
-
 // positionFromHelper: rhs is (a local bound to) the result of a library helper called with the
 // position v, and every value the helper returns in that result is its position parameter, or that
 // parameter plus the compressed-path length of a node.
